@@ -303,6 +303,20 @@ func (l *ledgers) onStarted(ni *nodeInc) {
 	}
 	// C10: the log a node restarts with is contiguous with its latest snapshot
 	prev, last, snap := r.log.PrevIndex(), r.lastLogIndex, r.snaps.index
+	if ni.n > 0 && ni.node.wiped == 0 && ni.node.ackedIndex > 0 {
+		ai, at := ni.node.ackedIndex, ni.node.ackedTerm
+		if ai > last && ai > snap {
+			l.run.violate("C10", "acked_entry_lost", "restart:acked_entry_lost", "%v restarted with last log index %d (snapshot %d) but had acknowledged storing (%d,%d) before it crashed", ni, last, snap, ai, at)
+			return
+		}
+		if ai > snap && ai > prev {
+			if t, err := r.storage.getEntryTerm(ai); err == nil && t != at {
+				l.run.violate("C10", "acked_entry_changed", "restart:acked_entry_changed", "%v restarted holding (%d,%d) where it had acknowledged (%d,%d)", ni, ai, t, ai, at)
+				return
+			}
+		}
+		l.run.reach("restart_with_acks")
+	}
 	if ni.n > 0 {
 		if !(prev <= snap && snap <= last) {
 			l.run.violate("C10", "log_snapshot_gap", "restart:log_not_contiguous_with_snapshot", "%v restarted with log (%d,%d] and snapshot index %d", ni, prev, last, snap)
@@ -421,6 +435,9 @@ func (l *ledgers) scanLog(ni *nodeInc, full bool) {
 	}
 	o.snapIndex, o.snapTerm = r.snaps.index, r.snaps.term
 	wasLeader := o.leaderTerm != 0 && r.state == Leader && o.leaderTerm == r.term
+	if ni.acked > last {
+		ni.acked, ni.ackedTerm = last, r.lastLogTerm // a leader made this node drop a conflicting suffix
+	}
 	// entries that disappeared from the tail
 	for i := last + 1; i <= o.last; i++ {
 		if t, ok := o.terms[i]; ok {
@@ -620,6 +637,14 @@ func (l *ledgers) observe(ni *nodeInc) {
 			}
 		}
 		o.commit = c
+		if r.state == Leader {
+			if t, ok := o.terms[c]; ok && run.sampleC06(c) {
+				l.checkDurableOnMajority(ni, c, t, "commit index of leader")
+				if run.stop {
+					return
+				}
+			}
+		}
 	}
 }
 
@@ -730,6 +755,116 @@ func (l *ledgers) onSnapshotPublished(ni *nodeInc) {
 		}
 		run.violate("C12", "snapshot_config_wrong", kind, "%v: snapshot at index %d is labelled with %v; the configuration in force at that index is %v", ni, idx, meta.config, *exp)
 		return
+	}
+}
+
+// ---- C06: acknowledged entries are durable on a majority of voters ---------------------------------
+
+func (run *simRun) sampleC06(index uint64) bool {
+	every := run.c06Every
+	if every <= 0 {
+		return false
+	}
+	return splitmix64(run.seed^index*0x9e3779b97f4a7c15)%uint64(every) == 0
+}
+
+func splitmix64(x uint64) uint64 {
+	x += 0x9e3779b97f4a7c15
+	z := x
+	z = (z ^ (z >> 30)) * 0xbf58476d1ce4e5b9
+	z = (z ^ (z >> 27)) * 0x94d049bb133111eb
+	return z ^ (z >> 31)
+}
+
+// configInLog: the newest configuration entry in ni's log (what the leader
+// itself must be using), from the ledger; nil if the log holds none.
+func (l *ledgers) configInLog(ni *nodeInc) *Config {
+	var best uint64
+	var c *Config
+	for i, t := range ni.obs.terms {
+		if i > best {
+			if rec := l.entries[entKey{i, t}]; rec != nil && rec.typ == entryConfig && rec.config != nil {
+				best, c = i, rec.config
+			}
+		}
+	}
+	return c
+}
+
+// durableHolds: would node n, killed right now and restarted, hold (i,t)?
+func (run *simRun) durableHolds(n *simNode, i, t uint64) (bool, string) {
+	src := n.dir
+	if n.inc != nil && !n.inc.dead {
+		src = n.inc.dir
+	}
+	run.c06Seq++
+	img := filepath.Join(run.baseDir, fmt.Sprintf("c06-%d", run.c06Seq))
+	defer os.RemoveAll(img)
+	if err := copyDir(src, img); err != nil {
+		return false, "image: " + err.Error()
+	}
+	run.tape.Frozen++
+	defer func() { run.tape.Frozen-- }()
+	st, err := openStorage(img, run.simOptions())
+	if err != nil {
+		return false, "open: " + err.Error()
+	}
+	defer st.log.Close()
+	if i <= st.snaps.index {
+		return true, "snapshot"
+	}
+	if !st.log.Contains(i) {
+		return false, fmt.Sprintf("log (%d,%d]", st.log.PrevIndex(), st.log.LastIndex())
+	}
+	e := &entry{}
+	if err := st.getEntry(i, e); err != nil {
+		return false, err.Error()
+	}
+	if e.term != t {
+		return false, fmt.Sprintf("term %d", e.term)
+	}
+	return true, "log"
+}
+
+func (l *ledgers) checkDurableOnMajority(ldr *nodeInc, i, t uint64, what string) {
+	run := l.run
+	conf := l.configInLog(ldr)
+	if conf == nil {
+		c := ldr.r.configs.Latest
+		conf = &c
+	}
+	voters, holders := 0, 0
+	detail := ""
+	nonvoterHolders := 0
+	for _, n := range run.nodes {
+		cn, member := conf.Nodes[n.id]
+		ok, how := run.durableHolds(n, i, t)
+		if member && cn.Voter {
+			voters++
+			if ok {
+				holders++
+			}
+			detail += fmt.Sprintf("    voter n%d: durable=%v (%s)\n", n.id, ok, how)
+		} else {
+			if ok {
+				nonvoterHolders++
+			}
+			detail += fmt.Sprintf("    non-voter n%d: durable=%v (%s)\n", n.id, ok, how)
+		}
+	}
+	run.reach("c06_evaluated")
+	if voters != run.cfg.Voters {
+		run.reach("c06_changed_voter_count")
+	}
+	if nonvoterHolders > 0 {
+		run.reach("c06_nonvoter_holds")
+	}
+	if holders < voters/2+1 {
+		sig := "not_durable_on_majority"
+		if !conf.isVoter(ldr.node.id) {
+			sig += ":leader_not_voter"
+		}
+		run.violate("C06", "not_durable_on_majority", sig, "entry (%d,%d) is reported committed (%s %v) but only %d of %d voters of %v hold it durably\n%s", i, t, what, ldr, holders, voters, *conf, detail)
 	}
 }
 
@@ -860,10 +995,35 @@ func (run *simRun) installTracer() {
 
 func (run *simRun) probe(name string, args []interface{}) {
 	switch name {
+	case "Raft.onAppendEntriesRequest:enter":
+		if ni := run.raftOf[args[0].(*Raft)]; ni != nil && !ni.dead {
+			req := args[1].(*appendReq)
+			ni.pendPrev, ni.pendN = req.prevLogIndex, req.numEntries
+		}
 	case "Raft.onAppendEntriesRequest:exit":
-		if res, ok := args[3].(rpcResult); ok && res == staleTerm {
-			if ni := run.raftOf[args[0].(*Raft)]; ni != nil && !ni.dead {
-				run.reach("append_stale_term")
+		ni := run.raftOf[args[0].(*Raft)]
+		if ni == nil || ni.dead {
+			break
+		}
+		res, _ := args[3].(rpcResult)
+		if res == staleTerm {
+			run.reach("append_stale_term")
+		}
+		if res == success {
+			// a success reply tells the leader that this node stores everything up to the
+			// last entry of the request (the leader records exactly that as match index)
+			r := ni.r
+			acked := ni.pendPrev + ni.pendN
+			if acked > r.lastLogIndex {
+				acked = r.lastLogIndex
+			}
+			if acked > ni.acked && acked > r.snaps.index {
+				if t, err := r.storage.getEntryTerm(acked); err == nil {
+					ni.acked, ni.ackedTerm = acked, t
+				}
+			}
+			if ni.pendN == 0 {
+				run.reach("heartbeat_ack")
 			}
 		}
 	}
@@ -926,7 +1086,10 @@ func (run *simRun) probe(name string, args []interface{}) {
 
 func (run *simRun) dbg(format string, a ...interface{}) {
 	if run.dbgOn && run.dbgF != nil {
+		// formatting may run instrumented String methods: no choice may be drawn
+		run.tape.Frozen++
 		run.dbgF(fmt.Sprintf(format, a...))
+		run.tape.Frozen--
 	}
 }
 
@@ -978,7 +1141,7 @@ func (run *simRun) settleCheck() {
 		return
 	}
 	if run.sim.Now-run.healedAt > run.settleBudget() {
-		run.violate("C17", "no_convergence", "settle:"+why, "cluster did not converge within %v of simulated time after the last fault: %s\n%s", time.Duration(run.settleBudget()), why, run.describeCluster())
+		run.violate("C17", "no_convergence", "settle:"+why, "cluster did not converge within %v of simulated time after the last fault: %s\n%s%s", time.Duration(run.settleBudget()), why, run.describeCluster(), run.sim.Describe())
 		return
 	}
 	run.sim.After(int64(run.cfg.HB), "settle-check", run.settleCheck)
